@@ -536,7 +536,10 @@ theorem keeps_doActionCore (w : World) (mid : Nat) (batch : Option Txn) (a : Act
       cases batch with
       | some t => exact keeps_txnReplace w t _ price v force
       | none => exact (keeps_txnReplace w _ _ price v force).trans (keeps_txnExit _ _)
-    | batchBegin c => exact Keeps.refl w
+    | batchBegin c =>
+      cases batch with
+      | some t => exact keeps_txnExit w t
+      | none => exact Keeps.refl w
     | batchExecute =>
       cases batch with
       | some t => exact keeps_txnExecute w t
